@@ -23,7 +23,7 @@ EXPLANATION = (
     'is_transient_error / is_limited_retries_error / is_rate_limit_error on (A) "position sweeps": t-1 transient '
     'failures then one failure whose catalogue kind, integer parameter (HTTP status / errno, -2..100000), message '
     'choice and __cause__-chain depth (0..2) are symbolic, for t in {1,2,5,6,8} (quick) / 1..12 (thorough), '
-    'and (B) sequences of N failures (quick N<=4, thorough N<=7) whose kinds are symbolic indices into one '
+    'and (B) sequences of N failures (quick N<=4, thorough N<=6) whose kinds are symbolic indices into one '
     'representative per reachable classification; only "Confirmed over all paths" counts. Oracle: failure number '
     'tries is retried iff rate-limit or transient or (limited-retry and tries<=5), otherwise that very exception '
     'object is raised at once; one sleep per retry, each equal to delay_ms_for_try(tries)/1000 and inside '
@@ -262,7 +262,7 @@ def run(R):
     from harness import C21_template
     quick = R.tier == 'quick'
     ts = [1, 2, 5, 6, 8] if quick else list(range(1, 13))
-    maxn = 4 if quick else 7
+    maxn = 4 if quick else 6
     pct = 150 if quick else 1200
     nreps = len(H.REPS_LIST)
     R.bounds = {'sweep_positions_t': ts, 'catalogue_kinds': H.K, 'integer_parameter': '-2..100000',
@@ -307,7 +307,7 @@ def run(R):
 
     groups = _groups(H)
     sweeps = [(t, lo, hi) for t in ts for lo, hi in groups]
-    # shards of family B: the first kind (for N >= 7 the first two) is fixed per CrossHair process; a prefix that
+    # shards of family B: the first kind (for N >= 6 the first two) is fixed per CrossHair process; a prefix that
     # already ends the run (a kind that is not retried at its position) is dropped for longer sequences
     keys = sorted(H.REPS)
 
@@ -317,7 +317,7 @@ def run(R):
 
     seqs = []
     for n in range(1, maxn + 1):
-        plen = 1 if n <= 6 else 2
+        plen = 1 if n <= 5 else 2
         for prefix in itertools.product(range(nreps), repeat=min(plen, n)):
             alive = all(retried_at(k, i + 1) for i, k in enumerate(prefix))
             if not alive and n > len(prefix):
